@@ -876,6 +876,19 @@ def rule_CR(ctx, tier):
     for bb, v in trues:
         rr.fail("in-mempool-verdict", "Carrier::in_mempool answers `%s` on a path that is not (Ok(tx) && tx.blockhash.is_none()): a penalty the node does not hold in its mempool would be tracked as sent" % v, where=im.line_of(bb))
     rr.require_floor(8, "CR instances")
+    # the verdict memo lives for one block only: clear_receipts leaves the map EMPTY (a kept verdict — "already in chain",
+    # say — is replayed on a later reorg without asking the node again, and the dispute is not re-sent with its penalty)
+    cl = P.require(CARRIER + "clear_receipts")
+    wipes = [bb for bb in cl.rpo() for s_ in cl.blocks[bb]["s"] if s_["k"] == "assign" and len(s_["d"]) > 1 and s_["d"][-1] == "f:issued_receipts" and has_call(ctx.og._rvalue(cl, s_["rv"], 0, ()), "HashMap", "new")]
+    wipes += [bb for bb, t_ in cl.calls() if (call_target(t_) or "").endswith("HashMap::<K, V, S, A>::clear") and "f:issued_receipts" in og.show(arg_origin(ctx, cl, bb, 0))]
+    partial = [call_target(t_) for bb, t_ in cl.calls() if "f:issued_receipts" in og.show(arg_origin(ctx, cl, bb, 0)) and (call_target(t_) or "").split("::")[-1] in ("retain", "remove", "remove_entry", "extract_if", "drain", "insert")]
+    from .rulekit import reach_without_edges
+    skip_ok = set(switch_succ_with(ctx, cl, "truth", True, "is_empty"))  # nothing to wipe when it is empty already
+    leak = any(reach_without_edges(cl, 0, r_, skip_ok | {(w, s_) for w in wipes for s_ in cl.succ(w)}, stop=lambda q: q in wipes) for r_ in cl.return_blocks())
+    if wipes and not partial and not leak:
+        rr.ok("clear_receipts empties the verdict memo on every path (unless already empty)", sample={"rule": "CR", "clear_receipts": "issued_receipts = HashMap::new() | clear()"})
+    else:
+        rr.fail("receipts-not-cleared", "`Carrier::clear_receipts` does not leave the verdict memo empty (%s): a verdict issued for one block is replayed for later blocks and reorgs without asking the node" % ("uses " + ", ".join(sorted(shortfn(x) for x in partial)) if partial else "no wipe on some path"), where=cl.span)
     return rr
 
 
